@@ -512,6 +512,10 @@ class OverlapInner(LoopSpec):
         i = g["cur"]
         apps = g["inner_app"]
         tr = seq.at(j)
+        if isinstance(tr, tuple) and tr:
+            tr = tr[0]             # e.g. iteration over (track, ...) pairs
+        if getattr(tr, "term", None) is None:
+            raise Undecided("the inner loop does not iterate over the alive tracks")
         run.oblige("the overlap test is made once per alive track, with the grid's (periodic) metric",
                    z3.BoolVal(len(g["ovl_calls"]) == 1 and g["ovl_calls"][0][1] is g["grid"]), kind="ensures", assume_after=False)
         run.oblige("the current track is appended to `overlaps` exactly when its last droplet overlaps the current droplet (with the grid's metric)",
@@ -578,7 +582,7 @@ class MatchOverlap(Contract):
         n, m = run.input_int("n_droplets"), run.input_int("n_alive")
         run.assume(z3.And(n >= 0, m >= 0))
         DROP, TRK = z3.Function("droplet_of_frame", I, I), z3.Function("alive_track", I, I)
-        g = dict(m=m, n=n, appends=[], new_tracks=[], ovl_calls=[], added_to_tracks=0, cur=z3.IntVal(0))
+        g = dict(m=m, n=n, appends=[], new_tracks=[], ovl_calls=[], added_to_tracks=0, cur=z3.Int("before_the_frame_loop"))
         grid = SOpaque("grid") if case["grid"] == "given" else None
         g["grid"] = grid
         time = run.input_real("time")
@@ -588,10 +592,14 @@ class MatchOverlap(Contract):
             k = to_z3(k)
 
             def last(run2):
+                # `track.last` is the track's last droplet AT THE TIME IT IS READ: a track extended by an earlier droplet of this frame has a new
+                # last droplet, so the read must happen while the current droplet is processed (reads hoisted out of the loop see a stale one)
+                when = g["cur"]
+
                 def ov(run3, a, kw):
                     g["ovl_calls"].append((k, kw.get("grid", a[1] if len(a) > 1 else None)))
                     x = a[0]
-                    return OVL(k, g["cur"]) if getattr(x, "term", None) is not None else (_ for _ in ()).throw(Undecided("overlaps with something else"))
+                    return OVL(k, when) if getattr(x, "term", None) is not None else (_ for _ in ()).throw(Undecided("overlaps with something else"))
                 return Sym(f"last[{k}]", methods={"overlaps": ov})
             last._lazy = True
             t = Sym(f"track[{k}]", term=TRK(k), attrs={"last": last},
